@@ -100,7 +100,8 @@ func run(pass *analysis.Pass) (any, error) {
 					X:   ast.NewIdent("fmt"),
 					Sel: ast.NewIdent(newName),
 				},
-				Args: append([]ast.Expr{recv}, args...),
+				Args:     append([]ast.Expr{recv}, args...),
+				Ellipsis: code.CallEllipsis(node, args),
 			}))
 			report.Report(pass, node, msg, report.Fixes(fix))
 		} else if m, ok := code.Match(pass, checkWriteStringSprintfQ, node); ok {
@@ -124,7 +125,8 @@ func run(pass *analysis.Pass) (any, error) {
 					X:   ast.NewIdent("fmt"),
 					Sel: ast.NewIdent(newName),
 				},
-				Args: append([]ast.Expr{recv}, args...),
+				Args:     append([]ast.Expr{recv}, args...),
+				Ellipsis: code.CallEllipsis(node, args),
 			}))
 			report.Report(pass, node, msg, report.Fixes(fix))
 		}
